@@ -146,6 +146,7 @@ func init() {
 		"runtime.Gosched":                  extYieldNop,
 		"os.Exit":                          extOsExit,
 		"errors.Is":                        extErrorsIs,
+		"errors.As":                        extErrorsAs,
 	} {
 		externals[k] = v
 	}
@@ -731,6 +732,42 @@ func extErrorsIs(fr *frame, args []value) value {
 			if fr.truth(equalsV(err.t, err.v, target.v)) {
 				return true
 			}
+		}
+		ms := fr.i.prog.MethodSets.MethodSet(err.t)
+		sel := ms.Lookup(nil, "Unwrap")
+		if sel == nil {
+			return false
+		}
+		r := call(fr.i, fr, fr.pos, fr.i.prog.MethodValue(sel), []value{err.v})
+		next, ok := r.(iface)
+		if !ok {
+			return false
+		}
+		err = next
+	}
+	return false
+}
+
+// errors.As(err, target): target is a non-nil pointer to an interface type or
+// to a type implementing error; walks the Unwrap chain.
+func extErrorsAs(fr *frame, args []value) value {
+	err := args[0].(iface)
+	target := args[1].(iface)
+	pt, ok := target.t.(*types.Pointer)
+	ptr, ok2 := target.v.(*value)
+	if !ok || !ok2 || ptr == nil {
+		panic(targetPanic{iface{t: types.Typ[types.String], v: "errors: target must be a non-nil pointer"}})
+	}
+	elem := pt.Elem()
+	for depth := 0; depth < 8 && err.t != nil; depth++ {
+		if it, isIface := elem.Underlying().(*types.Interface); isIface {
+			if types.Implements(err.t, it) {
+				*ptr = err
+				return true
+			}
+		} else if sameType(err.t, elem) {
+			*ptr = err.v
+			return true
 		}
 		ms := fr.i.prog.MethodSets.MethodSet(err.t)
 		sel := ms.Lookup(nil, "Unwrap")
